@@ -819,6 +819,12 @@ func (env *Env) callExpr(e *ECall) V {
 		ch := env.eval(e.Args[0])
 		arr := fc.heapGet(env.cur, "ghost:closed", fieldSort(sBool))
 		return boolV(sx("select", arr, ch.T[0]))
+	case "chancap":
+		// chancap(ch): the capacity ch was made with (0: unbuffered); never changes
+		argc(1)
+		ch := env.eval(e.Args[0])
+		arr := fc.heapGet(env.cur, "ghost:chancap", fieldSort(sBV(64)))
+		return V{Ty: types.Typ[types.Int], T: []string{sx("select", arr, ch.T[0])}}
 	case "oncedone":
 		// oncedone(&x.once): the sync.Once has fired
 		argc(1)
